@@ -140,7 +140,7 @@ pub fn all() -> Vec<CheckDef> {
             id: "C04",
             run: c04::run,
             replay: c04::replay,
-            rule: "generated histories of JOIN (single/lists/keys), PART, KICK, NICK, QUIT, abrupt close, new users, mode changes over 3-6 users and 4 channels; after every step NAMES/WHO/WHOIS probes from the actor and a rotating viewer, all viewers at the end; non-trivial = >= 3 membership changes incl. a PART/KICK/NICK/QUIT; distinct by capped counts of each change kind",
+            rule: "generated histories of JOIN (single/lists/keys), PART, KICK, NICK, QUIT, abrupt close, new users, mode changes over 3-6 users and 4 channels; after every step NAMES/WHO/WHOIS probes from the actor and a rotating viewer, all viewers at the end; crowded: rosters beyond the reply chunk sizes, and one command announced 20-44 times to the same member (comma-list JOIN/PART over shared channels, KICK naming many members) - every announcement arrives; non-trivial = >= 3 membership changes incl. a PART/KICK/NICK/QUIT; distinct by capped counts of each change kind",
             level: "exploration",
             assumptions: SIM_ASSUMPTIONS,
         },
@@ -164,7 +164,7 @@ pub fn all() -> Vec<CheckDef> {
             id: "C06",
             run: c06::run,
             replay: c06::replay,
-            rule: "fault enumeration: for each generated history (memberships with ranks, user modes, operator, away, pending invitations) x EVERY cut point x 2 victims x EVERY end kind (QUIT, close at line boundary, close mid-line, close with unread output pending, half-close, invalid UTF-8, over-long line, KILL by an operator, pong timeout in virtual time) plus several sessions closing in one step: the prefix is replayed in a fresh world, the session ended, and the survivors run the full probe battery (NAMES/WHO/WHOIS/MODE/TOPIC/LIST/LUSERS/ISON/USERHOST/WHOWAS), WALLOPS, an invited bystander's JOIN and a re-registration under the freed nick, all against the model; an evaluation = one (history, cut, victim, end kind); non-trivial = victim had a ranked membership or +w/+i/operator and the end kind is not QUIT; distinct by (end kind, victim feature vector, emptied-a-channel)",
+            rule: "fault enumeration: for each generated history (memberships with ranks, user modes, operator, away, pending invitations) x EVERY cut point x 2 victims x EVERY end kind (QUIT, close at line boundary, close mid-line, close with unread output pending, half-close, invalid UTF-8, over-long line, KILL by an operator, two pipelined KILLs of the same nick, pong timeout in virtual time) plus several sessions closing in one step: the prefix is replayed in a fresh world, the session ended, and the survivors run the full probe battery (NAMES/WHO/WHOIS/MODE/TOPIC/LIST/LUSERS/ISON/USERHOST/WHOWAS), WALLOPS, an invited bystander's JOIN and a re-registration under the freed nick, all against the model; an evaluation = one (history, cut, victim, end kind); non-trivial = victim had a ranked membership or +w/+i/operator and the end kind is not QUIT; distinct by (end kind, victim feature vector, emptied-a-channel)",
             level: "fault_enumeration",
             assumptions: &["SIM engine: TCP RST cannot be produced on the in-memory transport (close = drop of the client half, half-close = shutdown of its write side)", "reference model on_close() = the clean-up rule of the statement", "keep-alive in virtual time with ping_timeout=50 s, pong_timeout=5 s"],
         },
@@ -228,7 +228,7 @@ pub fn all() -> Vec<CheckDef> {
             id: "C17",
             run: c17::run,
             replay: c17::replay,
-            rule: "worlds with ping_timeout p in {1..200 s} and pong_timeout q with q<p, q=p, q>p; 1-4 clients each with a response pattern (always, always with another token, never, stops after k=1..5 answers) plus unrelated traffic (own PINGs with tokens, PRIVMSGs); 4-11 ping cycles in virtual time; oracle = PONG echoes the token; server PINGs at registration + i*p; responders never closed; a client silent from its k-th PING on gets ERROR and EOF by t_k + q + one simulation step; non-trivial = client with >= 2 PING cycles that is not a plain responder under q<p; distinct by (relation, pattern class, k)",
+            rule: "worlds with ping_timeout p in {1..200 s} and pong_timeout q with q<p, q=p, q>p; 1-4 clients each with a response pattern (always, always with another token, never, stops after k=1..5 answers) plus unrelated traffic (own PINGs with tokens, PRIVMSGs); 4-11 ping cycles in virtual time; oracle = PONG echoes the token; server PINGs at registration + i*p, none missing while the client is connected (answered or not); unsolicited PONGs answer nothing; PING with a second parameter echoes the token; responders never closed; a client the keep-alive dropped is gone for a fresh connection (ISON); a client silent from its k-th PING on gets ERROR and EOF by t_k + q + one simulation step; non-trivial = client with >= 2 PING cycles that is not a plain responder under q<p; distinct by (relation, pattern class, k)",
             level: "exploration",
             assumptions: &["Tokio paused clock (virtual time) on a single-threaded runtime; the simulation step (min(p,q)/4, 100..1000 ms) is the timing tolerance", "no real-time tier"],
         },
@@ -260,7 +260,7 @@ pub fn all() -> Vec<CheckDef> {
             id: "C13",
             run: run_c13,
             replay: replay_c13,
-            rule: "lines from a grammar generator (verb in random case, middles that may contain ':', optional trailing incl. empty, blank runs), a byte-level generator and all strings of length <= 8/10 over {SP ':' 'a' ',' '#'}; non-trivial = reference parse has >= 2 parameters and one of: ':' inside a middle, blank runs, empty trailing, mixed-case verb; distinct by (verb, #params, those four flags); SIM parts: verb_table = EVERY verb x arity 0..max+2 x {plain, mixed case, extra blanks} must be answered 421 (unknown) / 461 naming the verb (too few parameters) / neither; framing = lines of 1..4200 bytes (dense around the 2000 limit) LF/CRLF: processed once and uncut, or exactly one 417 and nothing executed; chunking = the same script line-at-a-time vs arbitrary chunking gives equal transcripts; relay = model-based histories with adversarial texts: every relayed PRIVMSG/NOTICE/TOPIC/PART/KICK/NICK/INVITE/WALLOPS and 301/332, re-parsed by the reference tokenizer, carries exactly the originator's target and text, every emitted line is one CRLF-terminated parsable message",
+            rule: "lines from a grammar generator (verb in random case, middles that may contain ':', optional trailing incl. empty, blank runs), a byte-level generator and all strings of length <= 8/10 over {SP ':' 'a' ',' '#'}; non-trivial = reference parse has >= 2 parameters and one of: ':' inside a middle, blank runs, empty trailing, mixed-case verb; distinct by (verb, #params, those four flags); SIM parts: verb_table = EVERY verb x arity 0..max+2 x {plain, mixed case, extra blanks} must be answered 421 (unknown) / 461 naming the verb (too few parameters) / neither; framing = lines of 1..4200 bytes (dense around the 2000 limit) LF/CRLF: processed once and uncut, or exactly one 417 and nothing executed; chunking = the same script line-at-a-time vs arbitrary chunking gives equal transcripts; eof_fragment = 0-2 complete lines then an unterminated fragment (command, partial CRLF, cut multi-byte character) then close / half-close: the complete lines are executed, the fragment never is; a verb that is not one of the 41 commands (incl. verbs whose Unicode upper case is a command name) never maps to a command; relay = model-based histories with adversarial texts: every relayed PRIVMSG/NOTICE/TOPIC/PART/KICK/NICK/INVITE/WALLOPS and 301/332, re-parsed by the reference tokenizer, carries exactly the originator's target and text, every emitted line is one CRLF-terminated parsable message",
             level: "exploration",
             assumptions: &["reference tokenizer (refparse.rs, self-tested) is the IRC grammar of the statement", "TAB/VT/FF/CR/LF inside a line and leading non-ASCII blanks are not judged", "line lengths 1991..2009 may be handled either way (processed whole or rejected whole)", "SIM engine for the wire parts"],
         },
